@@ -86,6 +86,31 @@ def _finish(o, Hh):
     return o
 
 
+class Driver:
+    """Listener of the subject that drives another machine from inside the subject's callbacks (records nothing in the subject's recorder)."""
+
+    def __init__(self):
+        self.armed = None
+        self.results = []
+
+    def _drive(self):
+        if self.armed is None:
+            return
+        peer, events = self.armed
+        self.armed = None
+        for ev, a, kw in events:
+            try:
+                self.results.append(("ok", peer.send(ev, *a, **kw)))
+            except (TransitionNotAllowed, Boom) as e:
+                self.results.append(("exc", e))
+
+    def on_enter_state(self):
+        self._drive()
+
+    def on_exit_state(self):
+        self._drive()
+
+
 class Play:
     """Runs the real machine step by step; after every step lets the interpreter parse the recorded log."""
 
@@ -255,6 +280,9 @@ class Play:
             self.check_round(ctx, ("ok", None), lambda: it.activate(), f"construction of {name}", ignore_result=True)
         for p in self.late:  # late listeners are attached after construction (for a sync machine: after activation)
             self.attach(ctx, p)
+        if name == "main" and not ctx.interp.is_async and self.case.get("driver_listener"):
+            self.drv = Driver()
+            ctx.sm.add_listener(self.drv)
         return ctx
 
     def attach(self, ctx, p):
@@ -413,6 +441,57 @@ class Play:
                 raise Fail("stored-state-touched", f"step {self.i}: reconstruction replaced the stored enum member")
         self.labels.add("reconstruct:" + ("resume" if state0 is not None else "fresh"))
         self.check_state(ctx, f"step {self.i} reconstruction over the same model")
+
+    async def op_sibling(self, step):
+        if "sib" in self.ctxs:
+            return
+        save = (self.rtc, self.allow)
+        self.allow = step.get("allow", self.allow)
+        await self.construct("sib")
+        self.rtc, self.allow = save
+        self.ctxs["sib"].interp.allow = step.get("allow", self.allow)
+        if self.ctxs["sib"].interp.is_async and self.explicit_activate:
+            await self.op_activate({"target": "sib"})
+        self.labels.add("noise:sibling")
+        self._noise_since = True
+
+    async def op_drive_from_callback(self, step):
+        """Arm the driver: during the next transition of the subject its listener sends events to the sibling."""
+        if "sib" not in self.ctxs or not hasattr(self, "drv") or self.ctxs["sib"].interp.is_async:
+            return
+        sib = self.ctxs["sib"]
+        events = [(e["ev"], e.get("args", []), e.get("kw", {})) for e in step["events"]]
+        self.drv.armed = (sib.sm, events)
+        self.drv.results.clear()
+        self._driven = True
+        try:
+            await self.op_send(step["then"])
+        finally:
+            self._driven = False
+        fired = self.drv.armed is None
+        self.drv.armed = None
+        if not fired:
+            sib.H.log.clear()
+            return
+        # the sibling must have processed each event by itself, completely, when it was sent
+        it = sib.interp
+        it.begin(list(sib.H.log))
+
+        for (ev, a, kw), obs in zip(events, self.drv.results):
+            try:
+                exp = ("ok", it.send(ev, a, kw))
+            except (ExpBoom, ExpTNA) as e:
+                exp = ("exc", e)
+            if exp[0] != obs[0] or (exp[0] == "ok" and not result_matches(exp[1], obs[1])) or (exp[0] == "exc" and exc_matches(exp[1], obs[1], sib.H)):
+                raise Fail("sibling-driven-from-callback", f"step {self.i}: sibling sent {ev!r} from inside a callback of the subject gave {obs!r}, expected {exp!r}")
+        try:
+            it.finish()
+        except Mismatch as m:
+            raise Fail("sibling-driven-from-callback", f"step {self.i}: sibling's callback log after being driven from the subject's callback: {m.detail}")
+        self.check_state(sib, f"step {self.i} sibling driven from inside the subject's callback")
+        sib.H.log.clear()
+        self.labels.add("noise:sibling-driven-from-callback")
+        self.nontrivial = True
 
     async def op_deficient_instance(self, step):
         """Another instance of the class over a bare model and without listeners: it must be rejected with InvalidDefinition
